@@ -92,7 +92,13 @@ def cases(tier):
         # one: a plain Fault of the other category, a crash, a dedicated error
         prelude = draw(st.lists(st.sampled_from(["client", "server", "crash", "notfound"]),
                                 min_size=0, max_size=2)) if draw(st.integers(0, 2)) == 0 else []
+        # the function answers in another protocol than the application default by assigning
+        # ctx.out_protocol (documented in examples/response_as_file_dynamic.py)
+        override = None
+        if transport == "wsgi" and prot != "soap12" and draw(st.integers(0, 4)) == 0:
+            override = draw(st.sampled_from([p for p in ("xml", "soap11", "json", "yaml") if p != prot]))
         return {"prot": prot, "transport": transport, "raised": raised, "prelude": prelude,
+                "override": override,
                 # the method is a generator (declared Iterable) raising before its first yield
                 # (through the real WSGI transport only: it is the transport that drives a
                 # generator up to its first yield before committing to a response)
@@ -315,7 +321,13 @@ def run_case(case, rec):
             pre.append(lambda: ZeroDivisionError("earlier crash"))
     queue = list(pre)
 
+    ocls = None
+    if case.get("override"):
+        ocls = type(_protocols(case["override"])[1])
+
     def m0(ctx, s):
+        if ocls is not None:
+            ctx.out_protocol = ocls()
         if queue:
             raise queue.pop(0)()
         calls.append(s)
@@ -329,7 +341,7 @@ def run_case(case, rec):
         raiser(ctx, (s,))
         yield RET_TOKEN
 
-    if case.get("gen"):
+    if case.get("gen") and not case.get("override"):
         from spyne.model.complex import Iterable
         Svc = type("Svc", (Service,), {"m0": rpc(Unicode, _returns=Iterable(Unicode), _args=["s"])(g0)})
     else:
@@ -395,6 +407,10 @@ def run_case(case, rec):
             return fails
         out_bytes = out.out_bytes
     where = "%s/%s" % (prot, tr)
+    if case.get("override"):
+        # the reply is judged by the rules of the protocol it is written in
+        where += "->" + case["override"]
+        prot = case["override"]
     if len(calls) != 1:
         fails.append(("C09|function-calls!=1|%s" % prot, "%s: function ran %d times" % (where, len(calls))))
     if RET_TOKEN.encode() in out_bytes:
